@@ -30,6 +30,8 @@ def idealBin (mode : RdMode) (op : BinOp) (a b : Ideal) : Ideal :=
       .val e (if op == .add then x + y else x - y)
     | .mul => .val (ea + eb) (va * vb)
     | .div => if vb == 0 then .undef else .val (ea - eb) (Spec.roundDiv (modeOf11 mode) va vb)
+    -- the remainder of the truncating division (sign of the dividend), at the dividend's exponent
+    | .mod => if vb == 0 then .undef else .val ea (Int.tmod va vb)
     | _ => .undef
   | .signal p, _ => .signal p
   | _, .signal p => .signal p
@@ -218,21 +220,57 @@ def cmpWant11 (op : CmpOp) (x y : Int) : Bool :=
 /-- the built-in operand of a static_number with a negative exponent `e` is scaled by `2^-e` in its own promoted
 type: class `C11.builtin_operand_scaled_in_its_own_type` when that product does not fit -/
 def mixScaleClass (op : String) (e : Int) (bt : IntTy) (b : Int) : String :=
-  if !(e ≥ 0 || op == "mul" || op == "div") && !(promote bt).inRange (b * 2^(-e).toNat) then
+  if !(e ≥ 0 || op == "mul" || op == "div" || op == "mod") && !(promote bt).inRange (b * 2^(-e).toNat) then
     "C11.builtin_operand_scaled_in_its_own_type"
   -- `from_value` gives a built-in operand the symmetric range of `digits T` digits: the most negative value is outside it
   else if bt.signed && b == bt.lowest then "C11.builtin_operand_most_negative"
   else ""
 
+/-- `+ − * /` and `%` on typed static numbers -/
+def binT (c : Cfg) (op : BinOp) (x y : TNum) : Res TNum := if op == .mod then remT c x y else binOpT c op x y
+def binO (c : Cfg) (n : IntTy) (op : BinOp) (s t : Opnd) : Res TNum := if op == .mod then remO c n s t else binOpO c n op s t
+
+/-- a binary operator on operands of two narrowest types (`asg = false`), or the compound assignment `x OP= y`: the
+operator, then the conversion of its result to the left operand's type -/
+def tbin2V (asg : Bool) (n1 n2 : IntTy) (mode : RdMode) (tag : OvTag) (op : BinOp) (d1 : Nat) (e1 : Int) (d2 : Nat) (e2 : Int)
+    (a b : Int) (res br : String) : Verdict :=
+  let c : Cfg := ⟨mode, tag⟩
+  let q := binT c op ⟨n1, ⟨d1, e1, a⟩⟩ ⟨n2, ⟨d2, e2, b⟩⟩
+  let i0 := idealBin mode op (.val e1 a) (.val e2 b)
+  let nt := !((op == .div || op == .mod) && b == 0)
+  if asg then
+    let m := q >>= convertT c n1 d1 e1
+    let cls := match q with
+      | .ok z => c11CvtClass mode z.x.digits z.x.exp e1 z.x.value
+      | _ => ""
+    { model := showResT tag m, spec := judgeT tag (idealCvtS mode tag n1.signed d1 e1 i0) d1 n1.signed res, cls := cls,
+      branch := br, nontrivial := nt }
+  else { model := showResT tag q, spec := judgeT tag i0 0 true res, branch := br, nontrivial := nt }
+
 def checkC11T (toks : List String) (res : String) : Option Verdict :=
   match toks with
+  | [kind, nw1, nw2, mode, tag, ops, d1, e1, d2, e2, a, b] => do
+    -- `tbin2` / `tasg2`: the operands have the narrowest types `nw1` and `nw2`; `tcmp2`: comparison
+    guard (kind == "tbin2" || kind == "tasg2" || kind == "tcmp2")
+    let n1 ← parseIntTy nw1; let n2 ← parseIntTy nw2; let mode ← parseRdMode mode; let tag ← parseOvTag tag
+    let d1 ← d1.toNat?; let e1 ← e1.toInt?; let d2 ← d2.toNat?; let e2 ← e2.toInt?; let a ← parseIntX a; let b ← parseIntX b
+    let br := kind ++ "/" ++ nw1 ++ "/" ++ nw2 ++ "/" ++ ops
+    if kind == "tcmp2" then do
+      let op ← parseCmpOp ops
+      let m := cmpT op ⟨n1, ⟨d1, e1, a⟩⟩ ⟨n2, ⟨d2, e2, b⟩⟩
+      let e := min e1 e2
+      let want := cmpWant11 op (a * 2^(e1 - e).toNat) (b * 2^(e2 - e).toNat)
+      some { model := showRes showBool m, spec := some (res == showBool want), branch := br }
+    else do
+      let op ← parseBinOp ops
+      some (tbin2V (kind == "tasg2") n1 n2 mode tag op d1 e1 d2 e2 a b res br)
   | ["tbin", nw, mode, tag, ops, d1, e1, d2, e2, a, b] => do
     let n ← parseIntTy nw; let mode ← parseRdMode mode; let tag ← parseOvTag tag; let op ← parseBinOp ops
     let d1 ← d1.toNat?; let e1 ← e1.toInt?; let d2 ← d2.toNat?; let e2 ← e2.toInt?; let a ← parseIntX a; let b ← parseIntX b
-    let m := binOpT ⟨mode, tag⟩ op ⟨n, ⟨d1, e1, a⟩⟩ ⟨n, ⟨d2, e2, b⟩⟩
+    let m := binT ⟨mode, tag⟩ op ⟨n, ⟨d1, e1, a⟩⟩ ⟨n, ⟨d2, e2, b⟩⟩
     let ideal := idealBin mode op (.val e1 a) (.val e2 b)
     some { model := showResT tag m, spec := judgeT tag ideal 0 true res, branch := "tbin/" ++ nw ++ "/" ++ ops,
-           nontrivial := !(op == .div && b == 0) }
+           nontrivial := !((op == .div || op == .mod) && b == 0) }
   | ["tcmp", nw, _mode, _tag, ops, d1, e1, d2, e2, a, b] => do
     let n ← parseIntTy nw; let op ← parseCmpOp ops
     let d1 ← d1.toNat?; let e1 ← e1.toInt?; let d2 ← d2.toNat?; let e2 ← e2.toInt?; let a ← parseIntX a; let b ← parseIntX b
@@ -310,11 +348,25 @@ def checkC11T (toks : List String) (res : String) : Option Verdict :=
     let d ← d.toNat?; let e ← e.toInt?; let bt ← parseIntTy bt; let a ← parseIntX a; let b ← parseIntX b
     let s : Opnd := .stat ⟨n, ⟨d, e, a⟩⟩; let t : Opnd := .builtin bt b
     let left := side == "L"
-    let m := if left then binOpO ⟨mode, tag⟩ n op t s else binOpO ⟨mode, tag⟩ n op s t
+    let m := if left then binO ⟨mode, tag⟩ n op t s else binO ⟨mode, tag⟩ n op s t
     let ideal := if left then idealBin mode op (.val 0 b) (.val e a) else idealBin mode op (.val e a) (.val 0 b)
     -- the exact value is all the property asks of a result whose built-in operand was the most negative number
     some { model := showResT tag m, spec := judgeT tag ideal 0 true res (!(bt.signed && b == bt.lowest)), cls := mixScaleClass ops e bt b,
            branch := "mixb/" ++ nw ++ "/" ++ ops ++ "/" ++ side ++ "/" ++ toks[8]!, nontrivial := a != 0 && b != 0 }
+  | ["mixa", nw, mode, tag, ops, d, e, bt, a, b] => do
+    -- `x OP= b` with a built-in `b`: the operator, then the conversion back to the type of `x`
+    let n ← parseIntTy nw; let mode ← parseRdMode mode; let tag ← parseOvTag tag; let op ← parseBinOp ops
+    let d ← d.toNat?; let e ← e.toInt?; let bt ← parseIntTy bt; let a ← parseIntX a; let b ← parseIntX b
+    let c : Cfg := ⟨mode, tag⟩
+    let q := binO c n op (.stat ⟨n, ⟨d, e, a⟩⟩) (.builtin bt b)
+    let m := q >>= convertT c n d e
+    let ideal := idealCvtS mode tag n.signed d e (idealBin mode op (.val e a) (.val 0 b))
+    let cls0 := mixScaleClass ops e bt b
+    let cls := if cls0 != "" then cls0 else match q with
+      | .ok z => c11CvtClass mode z.x.digits z.x.exp e z.x.value
+      | _ => ""
+    some { model := showResT tag m, spec := judgeT tag ideal d n.signed res, cls := cls,
+           branch := "mixa/" ++ nw ++ "/" ++ ops ++ "/" ++ toks[7]!, nontrivial := a != 0 && b != 0 }
   | ["mixc", nw, ops, d, e, side, bt, a, b] => do
     let n ← parseIntTy nw; let op ← parseCmpOp ops
     let d ← d.toNat?; let e ← e.toInt?; let bt ← parseIntTy bt; let a ← parseIntX a; let b ← parseIntX b
@@ -370,9 +422,10 @@ def checkC11 (toks : List String) (res : String) : Option Verdict :=
     let mode ← parseRdMode mode; let tag ← parseOvTag tag; let op ← parseBinOp ops
     let d1 ← d1.toNat?; let e1 ← e1.toInt?; let d2 ← d2.toNat?; let e2 ← e2.toInt?; let a ← a.toInt?; let b ← b.toInt?
     let c : Cfg := ⟨mode, tag⟩
-    let m := binOp c op ⟨d1, e1, a⟩ ⟨d2, e2, b⟩
+    let m := if op == .mod then (remT c ⟨narrowest, ⟨d1, e1, a⟩⟩ ⟨narrowest, ⟨d2, e2, b⟩⟩).map (·.x) else binOp c op ⟨d1, e1, a⟩ ⟨d2, e2, b⟩
     let ideal := idealBin mode op (.val e1 a) (.val e2 b)
-    some { model := showRes showSN m, spec := judge tag ideal 0 res, branch := "bin/" ++ ops ++ "/" ++ toks[1]!, nontrivial := !(op == .div && b == 0) }
+    some { model := showRes showSN m, spec := judge tag ideal 0 res, branch := "bin/" ++ ops ++ "/" ++ toks[1]!,
+           nontrivial := !((op == .div || op == .mod) && b == 0) }
   | ["cmp", _mode, _tag, ops, d1, e1, d2, e2, a, b] => do
     let op ← parseCmpOp ops
     let d1 ← d1.toNat?; let e1 ← e1.toInt?; let d2 ← d2.toNat?; let e2 ← e2.toInt?; let a ← a.toInt?; let b ← b.toInt?
